@@ -641,10 +641,10 @@ pub fn run(ctx: &Ctx) -> Verdict {
     ];
     v.subs.push(super::replay_corpus(ctx));
     let worker = std::cell::RefCell::new(Worker::new("c13"));
-    let n = ctx.tier.pick(6_000, 200_000);
+    let n = ctx.tier.pick(6_000, 60_000);
     let (mt, mp) = match ctx.tier {
         vcore::Tier::Quick => (4, 200),
-        vcore::Tier::Thorough => (8, 1500),
+        vcore::Tier::Thorough => (8, 400),
     };
     v.subs.push(vcore::run_proptest(ctx, "sequences", n, case_strategy(mt, mp), |c| check_via(&worker, c)));
     v.subs.push(vcore::run_enumerated(ctx, "deep", deep_cases(), |c| {
